@@ -94,6 +94,15 @@ def check(col: Collector, tier: str):
             except Exception:
                 table = None
     if table is None:
+        # ... or written out where it is used (every occurrence the same literal)
+        lits = {ast.dump(d): d for d in ast.walk(esc.node) if isinstance(d, ast.Dict) and d.keys}
+        if len(lits) == 1:
+            d = next(iter(lits.values()))
+            try:
+                table = {ast.literal_eval(k): ast.literal_eval(v) for k, v in zip(d.keys, d.values)}
+            except Exception:
+                table = None
+    if table is None:
         used = {x.id for x in ast.walk(esc.node) if isinstance(x, ast.Name) and isinstance(mod_tables.get(x.id), dict)}
         if len(used) == 1:
             table = mod_tables[used.pop()]
